@@ -101,6 +101,7 @@ class Controller:
         self.eth, self.loop, self.case = eth, eth.loop, case
         self.cfg = case["config"]
         self.n_schema_tx = 0
+        self.t_last_schema_rq = self.loop.time()
         self.n_lost = 0
         self.faults_on = True
         self.unknown: dict[str, int] = {}
@@ -179,6 +180,7 @@ class Controller:
         fate = "ok"
         if code in ("0005", "000C"):
             self.n_schema_tx += 1
+            self.t_last_schema_rq = self.loop.time()
             # losses hit the first polling round (light) or the first two (heavy); the round after that is fault-free
             if self.faults_on and self.loop.time() < (12 if self.case["faults"] == "light" else 36) * 3600:
                 fate = self.case["mask"].get(str(self.n_schema_tx), "ok")
@@ -267,6 +269,7 @@ async def _run(loop: Any, case: dict) -> dict:
     # a failed probe (lost, or timed out behind a congested send queue) is repeated at the next polling round, 24 h later
     # (and the repeat can itself time out in the burst of polls that opens every round: seen once in 14k cases - round 3 then)
     horizon = case.get("horizon") or {"none": 50, "light": 74, "heavy": 98}[case["faults"]] * 3600
+    want = _facts(expected(case["config"]))
     try:
         t = 0.0
         while t < horizon:
@@ -275,10 +278,17 @@ async def _run(loop: Any, case: dict) -> dict:
             t += step
             comp = named_components(gwy.schema).get(CTL, {"zones": {}, "dhw": {}, "appliance_control": None})
             obs["samples"].append({"t": t, "comp": comp})
-            if comp == expected(case["config"]) and not obs.get("t_converged"):
+            # compared as sets of facts (zone class / sensor / actuator, DHW part, appliance control): the components C12 is about,
+            # whatever else named_components() reports (it gained a key once, which silently disabled this early exit)
+            if _facts(comp) == want and not obs.get("t_converged"):
                 obs["t_converged"] = t
             if obs.get("t_converged") and t >= obs["t_converged"] + 4 * step and t >= 20 * 60:
                 break  # converged and stayed so for a while: the rest of a long horizon adds nothing
+            if not obs.get("t_converged") and loop.time() - ctl.t_last_schema_rq >= 25 * 3600:
+                # not converged, and no 0005/000C request for more than a whole polling round (24 h): every later round would be as silent
+                # as this one, so the rest of the horizon cannot change the verdict (never the case on a tree that polls at all)
+                obs["silent_round"] = True
+                break
         await vclock.quiesce()
         obs["final"] = named_components(gwy.schema).get(CTL, {"zones": {}, "dhw": {}, "appliance_control": None})
         obs["raw"] = jdump(gwy.schema)[:1500]
@@ -340,7 +350,7 @@ def judge(case: dict, obs: dict) -> list[tuple[dict, str]]:
     if missing:
         kinds = sorted({" ".join(m.split()[2:3] if m.startswith("zone") else m.split()[:2]) for m in missing})
         out.append(({"clause": "config-not-reconstructed", "what": "+".join(kinds)[:60], "faults": case["faults"] != "none"},
-                    f"after {obs['ran_s'] / 3600:.1f} h: missing {missing[:6]} (of {len(want)} facts); learn={case['learn']}"))
+                    f"after {obs['ran_s'] / 3600:.1f} h{' (no 0005/000C request for > 25 h: stopped)' if obs.get('silent_round') else ''}: missing {missing[:6]} (of {len(want)} facts); learn={case['learn']}"))
     if extra:
         kinds = sorted({" ".join(m.split()[2:3] if m.startswith("zone") else m.split()[:2]) for m in extra})
         out.append(({"clause": "invented", "what": "+".join(kinds)[:60]}, f"the schema holds {extra[:6]} which the controller never said"))
@@ -382,8 +392,8 @@ def explore(job: dict) -> dict:
         for sig, d in judge(case, obs):
             col.violation(sig, case, d)
         # a case that does not converge costs a full 26-50 h horizon: once this worker holds three, more of them add nothing
-        if sum(v["count"] for v in col.violations.values()) >= 3:
-            col.note("worker stopped early after 3 violating cases")
+        if sum(v["count"] for v in col.violations.values()) >= (2 if job.get("tier") == "quick" else 3):
+            col.note("worker stopped early after 2-3 violating cases")
             raise StopExploration()
 
     hyp_explore(config_strategy()(job.get("size", "any")), body, job["n"], job["seed"])
@@ -404,8 +414,13 @@ def run(ctx: Ctx, col: Collector) -> None:
         "virtual time: until converged and stable, at most 50 h without faults and 74 / 98 h with light / heavy faults (the 0005/000C poll interval is 24 h; a repeated probe can time out again in the burst that opens a round)",
     ]
     ctx.parallel(explore, ctx.shards(ctx.n(400, 12_000), per_shard_min=5, size="small"), col)  # <= 5 zones, no faults: minutes of virtual time
-    ctx.parallel(explore, ctx.shards(ctx.n(32, 2_000), per_shard_min=1, size="any"), col)  # large systems and loss masks: up to 50 virtual hours
-    ctx.floors = [("dhw", "cfg", 0.2), ("ctl-as-sensor", "cfg", 0.1), ("high-zones", "cfg", 0.2)]
+    if col.violations and ctx.quick:
+        col.note("second phase (large systems, loss masks) skipped: the first phase already holds violations (each violating case costs a whole horizon)")
+    else:
+        ctx.parallel(explore, ctx.shards(ctx.n(32, 2_000), per_shard_min=1, size="any"), col)  # large systems and loss masks: up to 50 virtual hours
+    # most cases are small systems that converge within the first virtual minutes; if that share collapses without any violation the
+    # early exit (or the model) is broken and every case is paying for a whole horizon
+    ctx.floors = [("dhw", "cfg", 0.2), ("ctl-as-sensor", "cfg", 0.1), ("high-zones", "cfg", 0.2), ("converged-in-first-round", "cfg", 0.5)]
 
 
 def replay(case: dict) -> list[tuple[dict, str]]:
